@@ -118,6 +118,11 @@ def make_uod(run: "Run", totalizer=True):
     def fin(cmd):
         log(cmd, "finalize")
 
+    def fin_boom(cmd):
+        # a finalizer that fails (hardware clean-up fails) after having done its work
+        log(cmd, "finalize")
+        raise RuntimeError("finalizer failed")
+
     def inst(cmd: UodCommand, **kw):
         log(cmd, "exec")
         cmd.set_complete()
@@ -125,6 +130,11 @@ def make_uod(run: "Run", totalizer=True):
     def long_(cmd: UodCommand, number, number_unit=None, **kw):
         log(cmd, "exec")
         if cmd.get_iteration_count() + 1 >= int(float(number)):
+            cmd.set_complete()
+
+    def long2(cmd: UodCommand, **kw):
+        log(cmd, "exec")
+        if cmd.get_iteration_count() >= 1:
             cmd.set_complete()
 
     def hang(cmd: UodCommand, **kw):
@@ -217,6 +227,7 @@ def make_uod(run: "Run", totalizer=True):
          .with_tag(Tag("Pct", value=10.0, unit="%"))
          .with_command(name="Inst", exec_fn=inst, init_fn=init, finalize_fn=fin, arg_parse_fn=None)
          .with_command_regex_arguments("Long", RegexNumber(units=None, non_negative=True, int_only=True), long_, init, fin)
+         .with_command(name="FinBoom", exec_fn=long2, init_fn=init, finalize_fn=fin_boom, arg_parse_fn=None)
          .with_command(name="Hang", exec_fn=hang, init_fn=init, finalize_fn=fin, arg_parse_fn=None)
          .with_command(name="On1", exec_fn=on1, init_fn=init, finalize_fn=fin, arg_parse_fn=None)
          .with_command(name="OpenV", exec_fn=openv, init_fn=init, finalize_fn=fin, arg_parse_fn=None)
